@@ -50,8 +50,12 @@ def frame(code, token, opts, payload, declared=None):
     return bytes([nib * 16 + len(token)]) + e + bytes([code]) + token + body
 
 
-def rand_frame(rng, max_size):
-    """(frame bytes, kind)"""
+BLOCK_OPTS = (23, 27, 28, 60)
+
+
+def rand_frame(rng, max_size, noblock=False):
+    """(frame bytes, kind); noblock: no Block1/Block2/Size1/Size2 option numbers (streams for a connection whose block-wise
+    layer is enabled: re-assembly is C04's subject, here every frame must reach the handler as it is)"""
     code = rng.choice([1, 2, 3, 4, 65, 68, 69, 132, 160, 0] + SIGNALS * 2)
     token = bytes(rng.randrange(256) for _ in range(rng.choice([0, 0, 1, 2, 4, 8, rng.randrange(9)])))
     opts = []
@@ -63,6 +67,8 @@ def rand_frame(rng, max_size):
                 num = 1
             if num > 65535:
                 break
+            if noblock and num in BLOCK_OPTS:
+                num += 1
             vl = rng.choice([0, 1, 2, 7, 12, 13, 14, 30, 268, 269, 270])
             opts.append((num, bytes(rng.randrange(256) for _ in range(vl))))
     elif code == 225 and rng.random() < 0.5:
@@ -149,10 +155,13 @@ def gen_cases(ctx):
         max_size = rng.choice([64, 300, 1152, 1152, 4096, 70000])
         cache = rng.choice([1, 2, 7, 64, 2048])
         queue = rng.choice([0, 1, 16])
+        # a quarter of the streams go to the connection a tcp.Server creates for an accepted stream (configured through
+        # options.With...: the wiring of the limits into the per-connection session is part of what is checked)
+        srv = rng.random() < 0.25
         frames = []
         kinds = []
         for _ in range(rng.choice([1, 2, 3, 5])):
-            f, k = rand_frame(rng, max_size)
+            f, k = rand_frame(rng, max_size, noblock=srv)
             frames.append(f)
             kinds.append(k)
         if rng.random() < 0.45:
@@ -164,8 +173,8 @@ def gen_cases(ctx):
         if rng.random() < 0.1:
             stream = stream[: rng.randrange(1, len(stream) + 1)]   # stream ends in the middle of a frame
         for pieces in chunkings(rng, stream, 4 if thorough else 3):
-            cases.append(("cfg %d %d %d" % (max_size, cache, queue), [p.hex() or "-" for p in pieces],
-                          {"kinds": kinds, "len": len(stream), "chunks": len(pieces)}))
+            cases.append(("%s %d %d %d" % ("cfgsrv" if srv else "cfg", max_size, cache, queue), [p.hex() or "-" for p in pieces],
+                          {"kinds": kinds + (["via-server"] if srv else []), "len": len(stream), "chunks": len(pieces)}))
     return cases
 
 
@@ -187,8 +196,9 @@ def explore(ctx, art):
         return
     model = judge = None
     if art.get("driver"):
-        rc, model, _ = common.pipe_lines([art["driver"], "model"], lines)
-        jl = [l + " | " + o if l.startswith("chunk") else l for l, o in zip(lines, impl)]
+        dl = [("cfg" + l[6:]) if l.startswith("cfgsrv ") else l for l in lines]   # the model does not care who made the connection
+        rc, model, _ = common.pipe_lines([art["driver"], "model"], dl)
+        jl = [l + " | " + o if l.startswith("chunk") else l for l, o in zip(dl, impl)]
         rc2, judge, _ = common.pipe_lines([art["driver"], "judge"], jl)
         if rc or rc2 or len(model) != len(lines) or len(judge) != len(lines):
             ctx.broken.append(("model", "C07 driver run failed", ""))
@@ -258,7 +268,8 @@ def replay(ctx, rep):
         print("replay file names no failing input:", rep.get("no_longer_checks"))
         return 1
     impl = common.run_test_harness(ctx, art["test"], "TestC07", lines, tag="replay")
-    jl = [l + " | " + o if l.startswith("chunk") else l for l, o in zip(lines, impl)]
+    dl = [("cfg" + l[6:]) if l.startswith("cfgsrv ") else l for l in lines]
+    jl = [l + " | " + o if l.startswith("chunk") else l for l, o in zip(dl, impl)]
     rc, judge, _ = common.pipe_lines([art["driver"], "judge"], jl)
     bad = 0
     for l, o, j in zip(lines, impl, judge):
